@@ -423,7 +423,7 @@ def crash_props(kind, frame, ffile):
 def main_threads(prop, tier, seed, budget):
     """C12: Mode T under ThreadSanitizer (simT) and, in the thorough tier, the same seeds under ASan (simTa)."""
     t_start = time.time()
-    build(('simT', 'simTa') if tier == 'thorough' else ('simT',))
+    build(('simT', 'simTa', 'simTc') if tier == 'thorough' else ('simT',))
     t_built = time.time()
     outdir = os.path.join(ROOT, 'replays', 'tmp', prop)
     shutil.rmtree(outdir, ignore_errors=True)
@@ -431,6 +431,7 @@ def main_threads(prop, tier, seed, budget):
     binaries = [('simT', os.path.join(BUILD, 'simT'))]
     if tier == 'thorough':
         binaries.append(('simTa', os.path.join(BUILD, 'simTa')))
+        binaries.append(('simTc', os.path.join(BUILD, 'simTc')))
     chunk = 100 if tier == 'quick' else 300
     counter = [0]
     deadline = time.time() + budget
@@ -487,7 +488,7 @@ def main_threads(prop, tier, seed, budget):
             continue
         seen.add(key); cands.append(v)
     harness_fault = None
-    bpaths = dict(binaries + [('simTa', os.path.join(BUILD, 'simTa'))])
+    bpaths = dict(binaries + [('simTa', os.path.join(BUILD, 'simTa')), ('simTc', os.path.join(BUILD, 'simTc'))])
     for c in cands[:5]:
         binary = bpaths[c['binary']]
         want = dict(kind='violation', oracle=c['oracle'], prop=prop, race_fn=race_fn(c['text']) if c['oracle'] == 'data_race' else '')
@@ -569,7 +570,7 @@ def main_threads(prop, tier, seed, budget):
             'known_findings_reconfirmed': sorted(known_hits.keys()),
             'components': {'real': ['the headers under %s/include/trompeloeil' % REPO, 'the default get_lock() and its std::recursive_mutex (pthread_mutex_lock/unlock intercepted at link time)', 'real std::thread tasks'],
                            'stand_in_user_side': ['mock classes', 'recording reporter', 'clause bodies'], 'simulated': ['the OS scheduler (replaced by sim/sched.cpp)']},
-            'binary': 'simT: clang++ -std=c++14 -O1 -fsanitize=thread (scheduler TU uninstrumented)' + ('; simTa: ASan+UBSan build of the same runner' if tier == 'thorough' else ''),
+            'binary': 'simT: clang++ -std=c++14 -O1 -fsanitize=thread (scheduler TU uninstrumented)' + ('; simTa: ASan+UBSan build of the same runner; simTc: TSan build with TROMPELOEIL_CUSTOM_RECURSIVE_MUTEX (the custom branch of get_lock())' if tier == 'thorough' else ''),
             'include_hash': include_hash(), 'build_s': round(t_built - t_start, 2),
         },
         'assumptions': ['yield points at synchronisation operations suffice when no data race is reported (DESIGN.md 3.4)',
